@@ -106,10 +106,14 @@ pub fn note(s: &str) {
 /// Declare what is about to be attempted and flush the report, so that if the process dies (stack overflow, abort,
 /// SIGSEGV) the driver can attribute the death: signature `<check>:process-died:<label>`.
 pub fn about_to(label: &str, detail: &str) {
-    with(|r| {
+    let path = with(|r| {
         r.about_to = Some((label.to_string(), detail.to_string()));
+        r.out_path.clone()
     });
-    write();
+    if !path.is_empty() {
+        // a small sidecar file (cheap to rewrite) read by the driver only if this process dies
+        let _ = std::fs::write(format!("{}.intent", path), J::obj().with("label", label).with("detail", detail).to_string());
+    }
 }
 
 pub fn done_with() {
@@ -155,6 +159,7 @@ pub fn write() {
         hb.extend_from_slice(&h.to_le_bytes());
     }
     let _ = std::fs::write(format!("{}.hashes", path), hb);
+    let _ = std::fs::remove_file(format!("{}.intent", path));
     let tmp = format!("{}.tmp", path);
     std::fs::write(&tmp, j.to_string()).expect("write report");
     std::fs::rename(&tmp, &path).expect("rename report");
